@@ -102,7 +102,7 @@ m = {
                  "kind_free_text": "runtime monitoring: the flex built from /repo's working tree and the scanners it generates are run under ASan/UBSan/TSan/memcheck with event logs co-simulated against a reference model, differential comparison, ledgers and fault injection"}],
     "checks": checks,
     "not_applicable": na,
-    "notes": "Exit 0 = held on everything explored; exit 1 + VIOLATION line = refuting execution with replay dir; exit 2 = harness failure or required coverage not observed (inconclusive).",
+    "notes": "Exit 0 = held on everything explored; exit 1 + VIOLATION line = refuting execution with replay dir; exit 2 = harness failure or required coverage not observed (inconclusive).  Genuine defects of the pinned tree: known_findings.json (machine-readable, with pinned probes under known/) and KNOWN_FINDINGS.txt (fixed: / known: lines); a known finding prints a KNOWN-FINDING line and does not change the exit status, a fixed one that comes back is a VIOLATION.  VERIF_SEED selects the exploration seed, VERIF_REPO another source tree, VERIF_NO_EVIDENCE=1 leaves evidence/ untouched.",
 }
 json.dump(m, open(os.path.join(ROOT, "MANIFEST.json"), "w"), indent=1)
 print("checks:", len(checks), "not_applicable:", len(na))
